@@ -3,17 +3,23 @@
    state, so the model is the equivalent recursive-descent reading. *)
 From MS Require Export Bytes Types.
 
-(* a name is everything up to and including the first zero byte *)
-Fixpoint take_name (d : bytes) (acc : bytes) : option (bytes * bytes) :=
+(* a domain name (query.rs, rr.rs): a sequence of labels -- a length byte
+   below 64 followed by that many bytes of any value, zero included -- up to the
+   root label; [left] = bytes left in the current label. A byte >= 64 in length
+   position is kept and the next byte is again read as a length. *)
+Fixpoint take_qname (d : bytes) (acc : bytes) (left : N) : option (bytes * bytes) :=
   match d with
   | [] => None
-  | b :: t => if b =? 0 then Some (rev (b :: acc), t) else take_name t (b :: acc)
+  | b :: t =>
+    if 0 <? left then take_qname t (b :: acc) (left - 1)
+    else if b =? 0 then Some (rev (b :: acc), t)
+    else take_qname t (b :: acc) (if b <? 64 then b else 0)
   end.
 
 Record question := { q_name : bytes; q_type : N; q_class : N }.
 
 Definition take_question (d : bytes) : option (question * bytes) :=
-  match take_name d [] with
+  match take_qname d [] 0 with
   | None => None
   | Some (name, r) =>
     match r with
@@ -39,7 +45,7 @@ Fixpoint take_questions (n : nat) (d : bytes) : option (list question * bytes) :
 
 (* a resource record of the request is only skipped *)
 Definition skip_rr (d : bytes) : option bytes :=
-  match take_name d [] with
+  match take_qname d [] 0 with
   | None => None
   | Some (_, r) =>
     (* type 2, class 2, ttl 4, rdlength 2 *)
